@@ -135,7 +135,23 @@ class Gen:
             L += ["else:"] + ["    " + l for l in self.block(depth)]
         return L
 
+    def while_lines(self, depth):
+        # a counted loop (walrus-free test: a walrus in a while test is KF-D16)
+        r = self.r
+        c = f"w{r.randrange(100)}"
+        self.no_walrus = True
+        try:
+            test = r.choice([c, f"B({c})", f"{c} > 0", f"note({c})", f"({c} and {self.expr(2)} == {self.expr(2)})"])
+        finally:
+            self.no_walrus = False
+        L = [f"{c} = {r.randrange(0, 3)}", f"while {test}:", f"    {c} -= 1"] + ["    " + l for l in self.block(depth)]
+        if r.randrange(3) == 0:
+            L += ["else:"] + ["    " + l for l in self.block(depth)]
+        return L
+
     def stmt_lines(self, depth=0):
+        if depth < 2 and self.r.randrange(9) == 0:
+            return self.while_lines(depth)
         if depth < 2 and self.r.randrange(4) == 0:
             return self.if_lines(depth)
         if depth < 2 and self.r.randrange(6) == 0:
